@@ -32,6 +32,7 @@ macro_rules! imp_struct { ($n:ident) => {
     impl Ob for $n { fn ob(&self, a: u64) -> u64 { step(self.st, self.id, 2, 7, a) } }
     impl Oc for $n { fn oc(&self, a: u64) -> u64 { step(self.st, self.id, 3, 11, a) } }
     impl TT<u8> for $n { fn tt(&self, a: u8) -> u8 { step(self.st, self.id, 4, 13, a as u64) as u8 } }
+    impl TT<u16> for $n { fn tt(&self, a: u16) -> u16 { step(self.st, self.id, 5, 17, a as u64) as u16 } }
 } }
 
 pub mod generated;
